@@ -5,6 +5,15 @@ the property text (one definition per conjunct), Handlers(cfg) the endpoint set,
 instance serves while its backend grows.  MCLogConfig.tla enumerates the cases (exhaustive over pairs / triples of field
 groups, all multi-configs of the bounded shape, seeded draws from the full product) and exports them with the model's
 verdict; the Go harness (harness/c15) materializes every case as configpb messages and compares trillian/ctfe's behaviour.
+
+History layer (spec/ctfe/LogConfigHist.tla): validation is a FUNCTION of the configuration.  A session is a sequence of
+validations in one process; consecutive configurations differ in one component (a plain field, the public key among two
+keys of one kind, one component of the frozen STH: timestamp, tree size, root hash, signature value, hash length), with
+repetition and return (valid - altered - valid).  Every call must return what it returns alone and hand on the key / frozen
+STH / window of the configuration presented to it.  A ghost variable tells which coarse memos (a cache that leaves one
+component out of its key) a history distinguishes from the function; the driver demands that the walks drawn by TLC expose
+every component that can change a verdict, as stale accept and as stale reject.  harness/c15 TestHistory replays the
+sessions on one goroutine of a fresh process, on the same keys and the same signature bytes throughout a session.
 """
 import json
 import random
@@ -24,6 +33,11 @@ ASSUME = [
     "the mirror's STH storage honours its interface contract (largest held STH not above the size it is asked for)",
     "a frozen mirror is held to the frozen-STH sentence only (the property's two sentences contradict each other when the "
     "frozen STH is larger than the backend tree)",
+    "history layer: sessions are random walks drawn by TLC's simulator (400 of 14 validations quick, 4000 of 24 thorough) over "
+    "neighbouring configurations; their sufficiency is part of the specification (every verdict-relevant component exposed in "
+    "both directions) and checked on every run; signatures are ideal in the specification (a value is the tuple it was made "
+    "over) and real in the harness (P-256 / RSA-2048, each tuple signed once per run); sessions run one after the other in "
+    "one process, overlapping validations are not explored",
 ]
 
 ENV = {"VERIF_MAXSIZE": 4, "VERIF_FROZENSIZE": 2}
@@ -36,6 +50,37 @@ def kind_of_cfg(c):
 def kind_of_beh(b):
     k = b["kind"]
     return (bool(k["isMirror"]), bool(k["isReadonly"]), bool(k["frozen"]))
+
+
+def history_walks(ctx):
+    """TLC draws the sessions, checks the laws of the history on every state and tells which memos each walk exposes."""
+    n = ctx.pick(400, 4000)
+    walks, exposed, required = [], set(), set()
+    seed0 = ctx.seed
+    for attempt in range(3):
+        # (the walks are random: should a draw lack a neighbour pair the specification requires, more are drawn)
+        ctx.seed = seed0 + 7919 * attempt
+        try:
+            r = ctx.tlc("ctfe", "LogConfigHistMC", ctx.pick("LogConfigHist.cfg", "LogConfigHistDeep.cfg"), workers=1,
+                        simulate=n, depth=60, timeout=3000, count=False, java_opts=["-XX:ParallelGCThreads=2"])
+        finally:
+            ctx.seed = seed0
+        got = r.records.get("WALK", [])
+        if len(got) != n:
+            raise Infra("TLC exported %d sessions, %d asked for" % (len(got), n))
+        walks += got
+        for w in got:
+            exposed.update(tuple(e) for e in w["exposed"])
+            required.update(tuple(e) for e in w["required"])
+        missing = sorted(required - exposed)
+        if required and not missing:
+            break
+        ctx.log("sessions lack %s; drawing more" % missing)
+    else:
+        raise Infra("the sessions do not tell the function from every coarse memo: never exposed: %s" % missing)
+    ctx.log("history: %d sessions, %d validations; every verdict-relevant component (%d) exposed as stale accept and as stale reject" % (
+        len(walks), sum(len(w["calls"]) for w in walks), len(required) // 2))
+    return [{"calls": w["calls"]} for w in walks]
 
 
 def run(ctx, replay=None):
@@ -75,7 +120,8 @@ def run(ctx, replay=None):
         len(cases), drawn, nvalid, len(sets), len(multis), sum(1 for m in multis if m["valid"])))
     ctx.exhaustive = ("every pair and selected triples of field groups in full product over four base configurations, the full "
                       "product of NotAfter bound states (31 x 31: absent or (seconds, nanos) rank pairs incl. out-of-range components) "
-                      "over every base (%d single configs; a window with both bounds is validated in all four spellings), all lists of <= 2 configs over 18 variants, all multi-configs with <= 2 backends "
+                      "over every base, every named spelling of a frozen STH that does not verify (one of timestamp / tree size / root hash / signature value / key differs "
+                      "from what was signed, each in four concrete readings) x key states x log kind over every base (%d single configs; a window with both bounds is validated in all four spellings), all lists of <= 2 configs over 18 variants, all multi-configs with <= 2 backends "
                       "(name, spec in 3 states each) x <= 2 logs (4 varying fields) x Backends/LogConfigs absent (%d); the full "
                       "product of field states (3.4e9) is sampled by seeded draws" % (len(cases) - drawn, len(multis)))
     # 3. behaviours of the instance machine: transition cover + random walks
@@ -111,6 +157,12 @@ def run(ctx, replay=None):
                VERIF_MULTICASES=ctx.write_ndjson("multicases.ndjson", multis),
                VERIF_JOBS=ctx.write_ndjson("jobs.ndjson", jobs))
     ctx.go_test("c15", run="TestReplay$", env=env, timeout=3000)
+    # 4. the history layer: sessions of validations in one process (a process of its own: nothing the case replay left behind)
+    if big:
+        ctx.tlc("ctfe", "LogConfigHistMC", "LogConfigHistPairs.cfg", timeout=3000)
+    walks = history_walks(ctx)
+    ctx.go_test("c15", run="TestHistory$", name="c15-history", env=dict(ENV, VERIF_WALKS=ctx.write_ndjson("walks.ndjson", walks)),
+                timeout=3000)
 
 
 def run_replay(ctx, replay):
@@ -122,6 +174,11 @@ def run_replay(ctx, replay):
         if len(rp["job"]["beh"]["steps"]) and max(s["backend"] for s in rp["job"]["beh"]["steps"]) > 4:
             env["VERIF_MAXSIZE"] = 5
         env["VERIF_JOBS"] = ctx.write_ndjson("jobs.ndjson", [rp["job"]])
+    elif kind == "history":
+        # a history finding: the session again, alone, in a fresh process
+        env["VERIF_WALKS"] = ctx.write_ndjson("walks.ndjson", [dict(rp["walk"], idx=rp.get("idx", 0))])
+        ctx.go_test("c15", run="TestHistory$", name="c15-history", env=env)
+        return
     elif kind in ("single", "set", "multi"):
         case = dict(rp["case"], variant=rp.get("variant", 0))
         if "spelling" in rp:
